@@ -441,6 +441,25 @@ def grammar(rep):
     rep.check(ok, 'DT.grammar', FILE, pname, pat, line,
               'the value of a property is not `any run of characters other than the quote, possibly empty` ([^"]*): properties with an empty or '
               'unusual value are dropped from the entry without an error', what='value = [^"]*')
+    # the name of a property: every character of [0-9a-zA-Z-_] has to be accepted inside a name (a narrower class cuts the name at
+    # the first character it does not know and files the value under the remainder)
+    import re as _re
+    try:
+        cre = _re.compile(pat)
+    except _re.error as e:
+        raise AnalysisError('%s: the property pattern does not compile: %s' % (FILE, e))
+    pgroup = 'prop' if 'prop' in cre.groupindex else next((g for g in cre.groupindex if g != 'value'), None)
+    if pgroup is None:
+        raise AnalysisError('%s: the property pattern %s has no group for the property name' % (FILE, pname))
+    lost = []
+    for c in '0123456789abcdefghijklmnopqrstuvwxyzABCDEFGHIJKLMNOPQRSTUVWXYZ-_':
+        found = cre.findall('a%sb="v"' % c)
+        m_ = cre.search('a%sb="v"' % c)
+        if m_ is None or m_.group(pgroup) != 'a%sb' % c:
+            lost.append(c)
+    rep.check(not lost, 'DT.grammar', FILE, pname, pat + ' (names)', line,
+              'a property name containing %r is not read as one name (e.g. `a%sb="v"` is filed under another key): the properties attached to a part '
+              'are not those written in the file' % (''.join(lost)[:10], (lost or ['-'])[0]), what='name class contains [0-9a-zA-Z-_]')
 
 
 def check_layout(rep, methods, funcs, names):
